@@ -31,9 +31,14 @@ def c13(tier, seed):
                 continue
             reg = (seed + i + j) % 2
             calls = (40000 if qs >= 4096 else 20000) * scale
+            extra = []
+            if fl == 'bp':
+                # bp grace periods sleep RCU_SLEEP_DELAY_MS between scans: stock 10 ms only in the thorough tier
+                extra = ['--tun-bp-sleep=%d' % (1 if tier == 'quick' or qs != 4096 else 10)]
+                calls = calls // (8 if qs < 4096 else 2)
             out.append(case('%s-q%d-reg%d' % (fl, qs, reg), 'defer', fl, 'plain',
                             ['--cfg=%s-q%d-reg%d' % (fl, qs, reg), '--queuers=3', '--readers=2', '--calls=%d' % calls,
-                             '--qsize=%d' % qs, '--queuer-registered=%d' % reg], {}, cpus=6, timeout=300 * scale))
+                             '--qsize=%d' % qs, '--queuer-registered=%d' % reg] + extra, {}, cpus=6, timeout=300 * scale))
     for fl in ('memb', 'qsbr'):
         out.append(case('%s-asan' % fl, 'defer', fl, 'asan',
                         ['--cfg=%s-asan' % fl, '--queuers=3', '--readers=2', '--calls=%d' % (8000 * scale), '--qsize=16',
@@ -49,9 +54,13 @@ def c13(tier, seed):
                     cpus=6, timeout=300 * scale))
     for i, (fm, fargs) in enumerate(FAULT_MODES[1:5]):
         fl = FLAVORS[(seed + i) % 4]
+        calls = 15000 * scale
+        if fl == 'bp' or fm == 'enosys':
+            calls //= 6         # 10 ms polling paths (bp scan sleep, compat futex)
         out.append(case('%s-fault-%s' % (fl, fm), 'defer', fl, 'plain',
-                        ['--cfg=%s-fault-%s' % (fl, fm), '--queuers=3', '--readers=2', '--calls=%d' % (15000 * scale),
-                         '--qsize=%d' % (16 if i % 2 else 4096)] + fargs, {}, cpus=6, timeout=300 * scale))
+                        ['--cfg=%s-fault-%s' % (fl, fm), '--queuers=3', '--readers=2', '--calls=%d' % calls,
+                         '--qsize=%d' % (16 if i % 2 else 4096), '--tun-bp-sleep=1'] + fargs, {}, cpus=6,
+                        timeout=300 * scale))
     out.append(case('memb-nomb', 'defer', 'memb', 'plain',
                     ['--cfg=memb-nomb', '--queuers=3', '--readers=2', '--calls=%d' % (15000 * scale), '--qsize=32'],
                     {'VP_NO_MEMBARRIER': '1'}, cpus=6, timeout=300 * scale))
